@@ -468,9 +468,14 @@ Definition read : bool -> bool -> string -> pyres rresult := read_with tokenize 
 
 (* ------------------------------------------------------------------------------------------------ text form (correspondence) *)
 Open Scope string_scope.
+(* g._bonds[n] in insertion order: the neighbours of n in bond creation order *)
+Definition adj_of (bs : list (Z * Z * Z)) (n : Z) : list (Z * Z) :=
+  flat_map (fun t : Z * Z * Z => let '(a, b, o) := t in if Z.eqb a n then [(b, o)] else if Z.eqb b n then [(a, o)] else []) bs.
+(* atoms in insertion order, each with its neighbour dictionary in insertion order *)
 Definition show_molrec (m : molrec) : string :=
-  show_list (fun na : Z * (atomtok * bool) => show_z (fst na) ++ "=" ++ show_atom (fst (snd na)) ++ (if snd (snd na) then "*" else "")) (mr_atoms m) ++ ";" ++
-  show_list (fun t : Z * Z * Z => let '(a, b, c) := t in "(" ++ show_z a ++ "." ++ show_z b ++ "." ++ show_z c ++ ")") (mr_bonds m).
+  show_list (fun na : Z * (atomtok * bool) => show_z (fst na) ++ "=" ++ show_atom (fst (snd na)) ++ (if snd (snd na) then "*" else "") ++
+                                               "[" ++ String.concat "." (map (fun mo : Z * Z => show_z (fst mo) ++ ":" ++ show_z (snd mo))
+                                                                             (adj_of (mr_bonds m) (fst na))) ++ "]") (mr_atoms m).
 Definition show_rresult (r : rresult) : string :=
   match r with
   | RMol m => "M " ++ show_molrec m
